@@ -90,7 +90,7 @@ def call_merge(it, fn, a):
     cli0, user0 = s["cli"].copy(), s["user"].copy()
     it.models[G.extractns] = lambda it_, ar, kw: cli0
     it.models[G.read_config] = lambda it_, ar, kw: user0
-    it.models[collections.ChainMap] = lambda it_, ar, kw: AChain(ar)
+    it.models[collections.ChainMap] = lambda it_, ar, kw: AChain([it_.force(m_) if isinstance(m_, SIte) else m_ for m_ in ar])
     it.models[G.ChainMap] = it.models[collections.ChainMap]
 
     def m_lookup(it_, ar, kw):
